@@ -127,6 +127,22 @@ def check(case):
             if not abs(j[i]) > 1e-3 * perms[i] * pf[i]:
                 nontrivial = False
 
+    # (i') the same through Pervaporation.ideal_diffusion_curve with membrane permeances (= the explicit ones at this temperature):
+    # its fluxes are the solver's fluxes at the REQUESTED precision, hence its permeances are those of the curve above
+    ideal = call(pv.ideal_diffusion_curve, case["T"], feed, case["perm"]["T"], case["perm"]["p"], case["precision"], "NRTL")
+    if not is_raised(ideal):
+        for k, j in enumerate(fluxes):
+            tot = abs(j[0]) + abs(j[1])
+            for i in (0, 1):
+                require(abs(float(ideal.partial_fluxes[k][i]) - j[i]) <= 1e-9 * abs(j[i]) + 1e-12 * tot,
+                        "ideal_diffusion_curve at precision %r: flux %d at point %d is %r, the flux calculation at that precision gives %r",
+                        case["precision"], i + 1, k, float(ideal.partial_fluxes[k][i]), j[i])
+                if math.isfinite(curve.permeances[k][i].value) and curve.permeances[k][i].value > 0:
+                    require(relerr(ideal.permeances[k][i].value, curve.permeances[k][i].value) <= 1e-6,
+                            "ideal_diffusion_curve reports permeance %r at point %d, a curve built from the same fluxes reports %r",
+                            ideal.permeances[k][i].value, k, curve.permeances[k][i].value)
+        classes.append("ideal-curve-composed")
+
     # (iii)+(iv) curve from permeances (any unit) -> fluxes = P*pf -> re-inversion
     unit = case["units"]
     sup = [(build.permeance(convert_units(case["p1"], build.KG, unit, comps[0].molecular_weight), unit),
